@@ -282,5 +282,44 @@ theorem vox3_set_map_nonempty (flood dc : Bool) (res : Nat) (hres : 1 ≤ res) (
   rw [hnil] at hmem
   cases hmem
 
+/-- a hit is an entry of `triPairs3` -/
+private theorem triPairs3_of_hit (pts : Array (V3 K)) (O : V3 K) (INV : K) (ni nj nk : Nat) (e : Nat × (Nat × Nat × Nat))
+    (q : Nat × Nat × Nat) (h : Hit3 pts O INV ni nj nk e.2 q) :
+    (idx3 ni nj q.1 q.2.1 q.2.2, e.1) ∈ triPairs3 pts O INV ni nj nk e := by
+  obtain ⟨p0, p1, p2, h0, h1, h2, r1, r2⟩ := h
+  unfold triPairs3
+  simp only [h0, h1, h2]
+  exact List.mem_map.mpr ⟨q, List.mem_filter.mpr ⟨(mem_triCells3 ni nj nk _ _ _ q).mpr r1, r2⟩, rfl⟩
+
+/-- **vox3_map_nonempty_iff** (`resolution ≥ 1`, no panic): `primitive_intersections` is non-empty (the map is built by
+`From<VoxelizedVolume>`) iff the volume has a surface cell. -/
+theorem vox3_map_nonempty_iff (flood dc : Bool) (res : Nat) (hres : 1 ≤ res) (p0 : V3 K) (ps : List (V3 K))
+    (tris : List (Nat × Nat × Nat)) (V : Vol3K K) (hV : (voxelize3K flood dc res p0 ps tris).1 = V) (hp : V.panic = false) :
+    V.prims.isEmpty = false ↔ ∃ q, InB3 V.ni V.nj V.nk q ∧ getC3 V.ni V.nj V.vals q = .surf := by
+  obtain ⟨m1, m2, m3, m4⟩ := vox3K_master flood dc res p0 ps tris V hV hp
+  obtain ⟨k1, k2, k3, k4, k5, k6, _⟩ := vox3_keep_same_volume flood dc res p0 ps tris
+  rw [hV] at k1 k2 k3 k4 k5 k6
+  have hp0 : (voxelize3 flood dc res p0 ps tris).1.panic = false := by rw [← k2]; exact hp
+  have hsurfiff := vox3_surface_iff flood dc res hres p0 ps tris _ rfl hp0
+  rw [← k1, ← k3, ← k4, ← k5, ← k6] at hsurfiff
+  have hem : V.prims.isEmpty = false ↔ V.prims.toList ≠ [] := by
+    rw [← Array.isEmpty_toList]
+    cases V.prims.toList <;> simp
+  rw [hem]
+  constructor
+  · intro hne
+    obtain ⟨pr, hpr⟩ := List.exists_mem_of_ne_nil _ hne
+    rw [m4] at hpr
+    obtain ⟨e, he, hpe⟩ := List.mem_flatMap.mp hpr
+    obtain ⟨q, hq, hhit, _⟩ := mem_triPairs3 _ _ _ _ _ _ e pr hpe
+    exact ⟨q, hq, (hsurfiff q hq).mpr ⟨e.2, List.mem_of_getElem? (mem_enumTris.mp he), hhit⟩⟩
+  · rintro ⟨q, hq, hs⟩
+    obtain ⟨t, ht, hh⟩ := (hsurfiff q hq).mp hs
+    obtain ⟨k, hk⟩ := List.getElem?_of_mem ht
+    have : (idx3 V.ni V.nj q.1 q.2.1 q.2.2, k) ∈ V.prims.toList := by
+      rw [m4]
+      exact List.mem_flatMap.mpr ⟨(k, t), mem_enumTris.mpr hk, triPairs3_of_hit _ _ _ _ _ _ (k, t) q hh⟩
+    exact List.ne_nil_of_mem this
+
 end generic3K
 end C18
